@@ -147,3 +147,17 @@ func TestReplayCompoundFileMsatChainTerminates(t *testing.T) {
 	im.sectors[2] = b.Bytes()
 	open(t, "index sector chain loops", im.bytes())
 }
+
+// The sector size exponent comes from the header; the format allows 9 (version 3) and 12 (version 4).
+func TestReplayCompoundFileSectorSizeFromTheHeader(t *testing.T) {
+	im := newImage(1)
+	im.hdr.SectorSize = 28
+	data := im.bytes()
+	var before, after runtime.MemStats
+	runtime.ReadMemStats(&before)
+	open(t, "sector size 2^28", data)
+	runtime.ReadMemStats(&after)
+	if grown := after.TotalAlloc - before.TotalAlloc; grown > 32<<20 {
+		t.Errorf("sector size 2^28: %d bytes allocated while reading a %d-byte file", grown, len(data))
+	}
+}
